@@ -26,7 +26,7 @@ use rustc_middle::mir::{
     self, AggregateKind, BasicBlock, Body, Const, ConstValue, Operand, Place, ProjectionElem,
     Rvalue, StatementKind, TerminatorKind,
 };
-use rustc_middle::ty::print::{with_no_trimmed_paths, with_resolve_crate_name};
+use rustc_middle::ty::print::{with_no_trimmed_paths, with_no_visible_paths, with_resolve_crate_name};
 use rustc_middle::ty::{self, Instance, Ty, TyCtxt, TypingEnv};
 use rustc_span::Span;
 use std::fmt::Write as _;
@@ -58,10 +58,10 @@ struct Cx<'tcx> {
 
 impl<'tcx> Cx<'tcx> {
     fn path(&self, d: DefId) -> String {
-        with_resolve_crate_name!(with_no_trimmed_paths!(self.tcx.def_path_str(d)))
+        with_no_visible_paths!(with_resolve_crate_name!(with_no_trimmed_paths!(self.tcx.def_path_str(d))))
     }
     fn tys(&self, t: Ty<'tcx>) -> String {
-        with_resolve_crate_name!(with_no_trimmed_paths!(t.to_string()))
+        with_no_visible_paths!(with_resolve_crate_name!(with_no_trimmed_paths!(t.to_string())))
     }
 
     /// (file, line, col, endline) of the span's start in user source (callsite for expansions)
@@ -129,7 +129,7 @@ impl<'tcx> Cx<'tcx> {
                 return format!(
                     "{{\"fn\":{},\"ga\":{}}}",
                     esc(&self.path(*did)),
-                    esc(&with_resolve_crate_name!(with_no_trimmed_paths!(format!("{:?}", args))))
+                    esc(&with_no_visible_paths!(with_resolve_crate_name!(with_no_trimmed_paths!(format!("{:?}", args)))))
                 );
             }
             _ => {}
@@ -434,7 +434,7 @@ impl<'tcx> Cx<'tcx> {
                             let _ = write!(
                                 out,
                                 ",\"ga\":{}",
-                                esc(&with_resolve_crate_name!(with_no_trimmed_paths!(format!("{:?}", cargs))))
+                                esc(&with_no_visible_paths!(with_resolve_crate_name!(with_no_trimmed_paths!(format!("{:?}", cargs)))))
                             );
                             if let Ok(Some(inst)) = Instance::try_resolve(tcx, typing_env, *cd, cargs) {
                                 let rd = inst.def_id();
